@@ -28,6 +28,18 @@ impl Dependencies {
     pub fn difference<'a>(&'a self, other: &'a Self) -> impl Iterator<Item = &Dependency> + 'a {
         self.0.difference(&other.0)
     }
+
+    /// Returns `true` if the given file or directory is one of the
+    /// dependencies.
+    pub fn contains_entry(&self, entry: &crate::source::OwnedDirEntry) -> bool {
+        use crate::source::OwnedDirEntry;
+
+        self.0.iter().any(|dep| match (dep, entry) {
+            (Dependency::File(id, ext), OwnedDirEntry::File(e_id, e_ext)) => id == e_id && ext == e_ext,
+            (Dependency::Directory(id), OwnedDirEntry::Directory(e_id)) => id == e_id,
+            _ => false,
+        })
+    }
 }
 
 #[derive(Debug, Clone, Copy, PartialEq, Eq, Hash)]
